@@ -4,10 +4,10 @@ import json, os, glob
 HERE = os.path.dirname(os.path.dirname(os.path.abspath(__file__)))
 CHECKS = {
  "C01": ("exploration", "reference-model runtime monitor on dump(): generated content vs independent RFC 6733 encoder",
-         "Every dictionary class, generic AVPs, nested Grouped, headers and assembled messages are built through the public API from generated content and their dump()/bytes()/len()/copy()/convert() compared byte-for-byte with an independent encoder fed the same logical content. Held-on-what-was-generated, not exhaustive. Request/answer classes (header= and field arguments) are construction paths of their own; every generated message is also changed through the container API (append, extend, pop, item assignment, update_avp, avps=, cleanup) and re-compared; the thorough tier runs the repository's own test-suite with a framing monitor riding along.",
+         "Every dictionary class, generic AVPs, nested Grouped, headers and assembled messages are built through the public API from generated content and their dump()/bytes()/len()/copy()/convert() compared byte-for-byte with an independent encoder fed the same logical content. Held-on-what-was-generated, not exhaustive. Request/answer classes (header= and field arguments) are construction paths of their own; every generated message is also changed through the container API (append, extend, pop, item assignment, update_avp, avps=, cleanup) and re-compared; the thorough tier runs the repository's own test-suite with a framing monitor riding along. Header fields are also re-assigned through the attribute setters of live headers; Grouped AVPs repeat members byte for byte.",
          "refcodec (120-line encoder written from RFC 6733) and the vendored refdict.json are trusted; typed message classes are judged by C09", "3 C01"),
  "C02": ("exploration", "reference-model runtime monitor on load(): reference-encoded streams, field-by-field and re-dump comparison",
-         "Streams of 1..8 messages produced by the independent encoder (arbitrary header fields and flag bytes, every dictionary class, unknown pairs, nesting) are decoded by the real code; count, order, every header/AVP field, materialised class and byte-identical re-dump are compared with the logical content. Thorough adds the exhaustive flag-byte x class grid. Includes AVP classes defined by the application after the first decode (documented extension path); the thorough tier runs the repository's own test-suite with a load/re-dump monitor riding along.",
+         "Streams of 1..8 messages produced by the independent encoder (arbitrary header fields and flag bytes, every dictionary class, unknown pairs, nesting) are decoded by the real code; count, order, every header/AVP field, materialised class and byte-identical re-dump are compared with the logical content. Thorough adds the exhaustive flag-byte x class grid. Includes AVP classes defined by the application after the first decode (documented extension path); the thorough tier runs the repository's own test-suite with a load/re-dump monitor riding along. A concurrent stage runs 2..4 decoding tasks at once under the deterministic scheduler with line-level preemption inside the class registry.",
          "refcodec/refdict trusted; one genuine defect is recorded as a known finding (flags of dictionary AVPs replaced by class defaults) because the pinned tests assert it", "3 C02"),
  "C10": ("exploration", "dictionary monitor + type-contract monitor (outcome of construction from any value is exception or well-formed encoding of that value)",
          "All classes discovered at run time are compared with the vendored dictionary, docs/list-of-avps.md and definitions.py; instances and load() dispatch are checked; every class is fed in-domain and out-of-domain values and the outcome judged by per-type domain predicates.",
@@ -16,37 +16,37 @@ CHECKS = {
          "Every truncation point, every length field at every depth set to small/adjacent/extreme values (thorough: all 2^24 values at two fields), bit flips of all header bytes, typed payload faults for all dictionary classes, trailing garbage and random strings are decoded by the real code under an iteration guard; anything but 'returns' or 'library error within the step bound' is a violation. The live-node half (part B) is decided by the scheduler-based scenario runs. Part B sends 60 classes of malformed and hostile-but-decodable input (invalid UTF-8 in every text AVP, vendor-flagged base AVPs, odd widths, bursts, nesting to depth 3000) to a live node in five connection states and judges lock ownership, thread survival, responsiveness and teardown; part A sweeps nesting depths to 40000. Hostile text (long legal runs closed by an illegal character, separator runs) in every text-typed dictionary AVP is decoded in a forked child under a CPU-time limit (RLIMIT_CPU, 4 s of consumed CPU per decode), which bounds the time spent inside single C calls such as a backtracking regular expression.",
          "bound is 4*len+64 loop iterations; exceptions are classified by the module that defines them", "3 C03"),
  "C04": ("exploration", "history checker (sent vs delivered) over executions of the real node under a deterministic scheduler and a substituted transport",
-         "Message sequences x segmentations (every split position of a short stream, byte-at-a-time, header-internal, random, coalescing) x recv-size scripts x schedules (round robin; random walk with line-level preemption) are executed against a real Diameter node; the sequence returned by get_message() and the order in which the state machine consumes messages are compared with what the scripted peer sent. Plus park sweeps (application consumer, receive worker and transport thread each descheduled once at every source line of their path while the other threads go on) and a real-loopback stage (unmodified node, kernel TCP on 127.0.0.1, five segmentation modes) with the same oracle.",
+         "Message sequences x segmentations (every split position of a short stream, byte-at-a-time, header-internal, random, coalescing) x recv-size scripts x schedules (round robin; random walk with line-level preemption) are executed against a real Diameter node; the sequence returned by get_message() and the order in which the state machine consumes messages are compared with what the scripted peer sent. Plus park sweeps (application consumer, receive worker and transport thread each descheduled once at every source line of their path while the other threads go on) and a real-loopback stage (unmodified node, kernel TCP on 127.0.0.1, five segmentation modes) with the same oracle. Also: seconds of silence between the segments of one message (longer than the receive worker's idle poll).",
          "vnet is a model of Linux TCP sockets; schedules are explored at synchronisation-operation and source-line granularity; bounded progress on a virtual clock", "3 C04"),
  "C05": ("exploration", "history checker (submitted vs written) + conservation over executions under the deterministic scheduler with partial-write scripts",
-         "1..4 submitter tasks x message sizes x partial-write scripts (fixed, random, zero-window) x inbound traffic x schedules; the bytes the substituted socket accepted are decoded by the reference decoder and matched against the submitted messages (exactly once, whole, per-submitter order, only whole node-originated base messages besides). Plus park sweeps (a submitter, the transport thread and the state-machine thread descheduled at every line of the functions that move the stream, with a late submitter sending meanwhile), a directed window (inbound data readable at the instant of a partial write) and a real-loopback stage (small SO_SNDBUF/SO_RCVBUF, slow reader) with the same oracle. A third of the plain cases submit some messages again (same object or an equal copy); multiplicities are counted.",
+         "1..4 submitter tasks x message sizes x partial-write scripts (fixed, random, zero-window) x inbound traffic x schedules; the bytes the substituted socket accepted are decoded by the reference decoder and matched against the submitted messages (exactly once, whole, per-submitter order, only whole node-originated base messages besides). Plus park sweeps (a submitter, the transport thread and the state-machine thread descheduled at every line of the functions that move the stream, with a late submitter sending meanwhile), a directed window (inbound data readable at the instant of a partial write) and a real-loopback stage (small SO_SNDBUF/SO_RCVBUF, slow reader) with the same oracle. A third of the plain cases submit some messages again (same object or an equal copy); multiplicities are counted. Restart executions: two connections of one node object, a message handed in while the first one ends; the second connection's stream must carry only what was submitted on it.",
          "as C04", "3 C05"),
  "C06": ("exploration", "online trace checker: real node vs hand-written reference transition model at quiescent points (exhaustive event sequences to a stated depth)",
-         "All sequences over a 19-event alphabet to depth 2 (quick) / 3 (thorough) from each model state, both roles, 0/1/3 applications, plus random longer sequences; hard clauses H1-H9 are violations, soft cells are reported as model drift. As built the alphabet has 22 events; plus the client open path under random-walk schedules, park sweeps of the state-machine thread (every event lands while the thread stands at line k of its tick, also while it is busy with a message that just arrived) and real-loopback event sequences against the hard clauses.",
+         "All sequences over a 19-event alphabet to depth 2 (quick) / 3 (thorough) from each model state, both roles, 0/1/3 applications, plus random longer sequences; hard clauses H1-H9 are violations, soft cells are reported as model drift. As built the alphabet has 22 events; plus the client open path under random-walk schedules, park sweeps of the state-machine thread (every event lands while the thread stands at line k of its tick, also while it is busy with a message that just arrived) and real-loopback event sequences against the hard clauses. H11 judges the release of the transport online, at the transition into Closed itself.",
          "the reference model (bvm/scen.py) is hand-written from the property statement and RFC 6733; comparison at quiescent points under round-robin scheduling and virtual time", "3 C06"),
  "C07": ("exploration", "request/answer matcher over the emitted stream (reference decoder), incl. reconnects of the same node object",
          "Sequences of base requests with boundary/random/repeated identifier pairs, back-to-back or segmented, interleaved with application traffic and send-queue floods, both roles, 1..3 connections per node object; every emitted CEA/DWA/DPA must pair with exactly one request and leave the socket before the next inbound message is taken. Stray base answers from the peer are part of the inbound mix (they must not be answered); plus real-loopback exchanges over two connections of the same node object. An application task hands forged CEA/DWA/DPA objects to send_message()/send_messages() during the exchange: none may reach the socket.",
          "identifier pairs are sampled, not enumerated", "3 C07"),
  "C08": ("fault_enumeration", "end-of-life monitor (Closed, sockets released, tasks finished, blocked callers returned, restart works) over cause x life-cycle point x schedule",
-         "Termination causes {local close, peer DPR, peer disconnect, peer reset, refused connection} x life-cycle points {during connect, before CE, Open idle/inbound queued/outbound queued, consumer blocked, Closing} x roles x schedules; deadlocks and spins are detected by the scheduler. Plus a line-by-line park sweep of application threads inside send_message()/get_message() across every cause, DPR with each Disconnect-Cause, and a real-loopback stage (seven causes, thread/fd release observed through threading.enumerate() and /proc/self/fd, restart of the same object).",
+         "Termination causes {local close, peer DPR, peer disconnect, peer reset, refused connection} x life-cycle points {during connect, before CE, Open idle/inbound queued/outbound queued, consumer blocked, Closing} x roles x schedules; deadlocks and spins are detected by the scheduler. Plus a line-by-line park sweep of application threads inside send_message()/get_message() across every cause, DPR with each Disconnect-Cause, and a real-loopback stage (seven causes, thread/fd release observed through threading.enumerate() and /proc/self/fd, restart of the same object). Further points: the end lands while the state machine is inside the handling of an inbound CER/DWR/request (park sweep per handler line); on the real loopback also the library's own context() retry loop after a refused connection.",
          "bounds on the virtual clock and step counter; vnet reproduces Linux errno sequences observed on the real loopback", "3 C08"),
  "C13": ("exploration", "dispatch trace checker over a real Bromelia object with in-process workers and a recording connection layer",
-         "Route tables of 1..4 applications x 1..4 command codes x typed requests x handler outcomes; which handler ran and what reached the connection layer are compared with a route-table model and the fallback rule. Handler outcomes include exceptions without arguments / of application classes, str/list/class results and answers built for another application; plus the application layer as shipped (worker process, Manager IPC, loopback peer).",
+         "Route tables of 1..4 applications x 1..4 command codes x typed requests x handler outcomes; which handler ran and what reached the connection layer are compared with a route-table model and the fallback rule. Handler outcomes include exceptions without arguments / of application classes, str/list/class results and answers built for another application; plus the application layer as shipped (worker process, Manager IPC, loopback peer). Connection entries serving several applications; handlers registered again for pairs that have already served requests.",
          "workers are in-process (fake manager); requests the fallback cannot be built for are observed, not judged", "3 C13"),
  "C14": ("exploration", "rendezvous history checker under the deterministic scheduler (callers, real send_handler, wire task, real dispatch threads)",
-         "1..6 callers x all answer permutations (k<=4) x release policies x schedules with line-level preemption inside bromelia/bromelia.py; deadlock detection and bounded progress decide 'always wakes'. Plus park sweeps of one caller and of one dispatch thread (descheduled at every line of their path until the rest of the exchange has gone as far as it can) and the application layer as shipped (five real threads in send_message(), shuffled answers, a stray answer).",
+         "1..6 callers x all answer permutations (k<=4) x release policies x schedules with line-level preemption inside bromelia/bromelia.py; deadlock detection and bounded progress decide 'always wakes'. Plus park sweeps of one caller and of one dispatch thread (descheduled at every line of their path until the rest of the exchange has gone as far as it can) and the application layer as shipped (five real threads in send_message(), shuffled answers, a stray answer). One caller sending the same request object repeatedly (also after an attempt on a worker that was down).",
          "in-process workers; cross-process effects of Bromelia.run() are out of reach", "3 C14"),
  "C09": ("exploration", "reference-model runtime monitor on the typed constructors (vendored command table, argument->AVP rule, reference codec round trip)",
-         "All 50 typed command classes x optional-argument subsets x generated in-domain values x extra keyword AVPs; header, order, mandatory-once, argument class and round trip are judged; omission of default-less mandatory arguments must raise a library error.",
+         "All 50 typed command classes x optional-argument subsets x generated in-domain values x extra keyword AVPs; header, order, mandatory-once, argument class and round trip are judged; omission of default-less mandatory arguments must raise a library error. Order-independence stage: all plans built in two forked children in opposite orders must give the same outcome, header and AVP codes.",
          "command table written from the RFCs/3GPP TS (bvm/refdict.py); three genuine defects are recorded as known findings", "3 C09"),
  "C11": ("exploration", "class invariant after every container operation against a list-based reference container (DFS with state hashing + random walks)",
-         "Operation sequences over a small AVP alphabet on generic, decoded and typed messages; invariants I1-I4 evaluated after each operation; DFS with abstract-state hashing over lists of bounded size, random walks beyond.",
+         "Operation sequences over a small AVP alphabet on generic, decoded and typed messages; invariants I1-I4 evaluated after each operation; DFS with abstract-state hashing over lists of bounded size, random walks beyond. Start states include a typed message and the generic message convert() makes of it (the invariants watch both).",
          "names are the attributes whose key contains _avp; identity semantics", "3 C11"),
  "C12": ("exploration", "postcondition monitor on decorate_answer (request identity, n // 1000 family rule)",
          "Typed and generic request/answer pairs x Result-Codes (0..65535 exhaustively on one pair, every defined code on every pair) x Session-Id residues x answer shapes. Plus the application layer as shipped (Bromelia.run(): worker process, Manager IPC, loopback peer) judged on the decoration of handler answers. Plus a route stage: a real Bromelia object with in-process workers dispatches requests to handlers that build their answers in five styles (typed, generic, on the request's own header, a fresh header with the request's identifiers, a reused object); the message handed to the connection worker is judged by the same oracle.",
          "multiples of 1000 and answers with both result AVPs are not judged for the E flag", "3 C12"),
  "C15": ("exploration", "uniqueness monitor with a scripted random source (os.urandom substituted); concurrent part under the deterministic scheduler",
-         "Mixed creation histories with adversarial random sources; draw counting for answers and explicit-header requests; concurrent creators under controlled schedules.",
+         "Mixed creation histories with adversarial random sources; draw counting for answers and explicit-header requests; concurrent creators under controlled schedules. Sources include values over a two-byte alphabet (identifiers that occur across the boundary of two others).",
          "random sources that can never yield a fresh value are excluded", "3 C15"),
  "C16": ("exploration", "uniqueness + grammar monitor over generation histories with a virtual clock",
          "Histories over several identities of AVP creation, typed message creation, bulk origin updates and clock steps; exhaustive to length 5/6, random to length 400/2000. A quarter of the random histories run in another clock era (NTP rollover of 2036, 2040, 2106) and/or in a process that has already issued 2^16, 2^31 or 2^32 ids; bulk updates naming Session-Id and Origin-Host together are included.",
@@ -61,7 +61,7 @@ CHECKS = {
          "All digit strings up to length 5 (quick) / 7 (thorough) plus random strings to 20 digits; encode, decode, round trip and the two AVP classes.",
          "independent 10-line TBCD reference", "3 C18"),
  "C20": ("exploration", "total-function sweep with ipaddress / integer-arithmetic / big-endian bit oracle",
-         "Boundary words x 32 indices exhaustively on all 49 Unsigned32 classes, address literals by structure on the Address classes, instants 1900..2036 on the Time classes.",
+         "Boundary words x 32 indices exhaustively on all 49 Unsigned32 classes, address literals by structure on the Address classes, instants 1900..2036 on the Time classes. The data of live Address AVPs and flag words is replaced through the public attribute and the accessors are read again.",
          "Python ipaddress and datetime arithmetic are trusted", "3 C20"),
 }
 NOT_YET = {}
